@@ -217,18 +217,18 @@ def run(ck):
                     return b
             return None
         ck.lean_violations(res, search)
-    for a, b in bad_odd.items():
-        if "odd:" + a not in explained:
+    # with a broken theorem, the other disagreements with the reference (aliases, units built on the same function) are
+    # listed in the evidence; when every theorem checks they are verdicts of their own
+    if res.ok:
+        for a, b in bad_odd.items():
             ck.violation("odd:" + a, "approximation %s is not odd: f(%g) = %.12g, f(%g) = %.12g on the real code"
                          % (a, b["y"], b["real_code_double"]["f(y)"], -b["y"], b["real_code_double"]["f(-y)"]), b, True)
-    for n, b in bad_unit.items():
-        if n.split("_")[0] in bad_odd and n.split("_")[2] in ("neg", "loneg", "hineg"):
-            continue   # same root cause as the oddness violation of this approximation (the reference is the odd extension)
-        if n not in explained:
-            ck.violation("unit:" + n, "traced unit %s differs from the reference formula (%s) although no theorem "
-                         "about it broke" % (n, b["output"]), b, True)
-    for n, b in bad_path.items():
-        if n not in explained:
+        for n, b in bad_unit.items():
+            if n.split("_")[0] in bad_odd and n.split("_")[2] in ("neg", "loneg", "hineg"):
+                continue   # same root cause as the oddness violation (the reference is the odd extension)
+            ck.violation("unit:" + n, "traced unit %s differs from the reference formula (%s) although every theorem "
+                         "checks" % (n, b["output"]), b, True)
+        for n, b in bad_path.items():
             ck.violation("region:" + n, "the branch taken by %s is not the same on the whole region it is traced for"
                          % n, b, True)
     if ck.tier == "thorough" and res.ok:
@@ -268,6 +268,8 @@ def run(ck):
                 "formula (value and quotient-rule derivative, odd extension for negative arguments), plus exact oddness pairs "
                 "f(-y) = -f(y); distinct = points",
         "search_stats": stats,
+        "units_differing_from_reference": sorted(bad_unit), "approximations_not_odd": sorted(bad_odd),
+        "units_with_region_dependent_branch": sorted(bad_path),
         "partial": "accuracy with respect to the true inverse Langevin function (needs coth) is not proved",
         "accuracy_table_abs_error_of_L_of_f_minus_y": table,
         "bergstrom_boyce_jump_at_c0": jump,
